@@ -81,3 +81,9 @@ Fixpoint nodup_strs (l : list str) : bool :=
   | [] => true
   | x :: r => negb (mem_str x r) && nodup_strs r
   end.
+
+Fixpoint mem_nat (i : nat) (l : list nat) : bool :=
+  match l with
+  | [] => false
+  | j :: r => Nat.eqb i j || mem_nat i r
+  end.
